@@ -64,28 +64,28 @@ CLAIMS = {
     "C03": {
         "category": "proof",
         "design_ref": 'DESIGN.md §5 C03, §4 F4',
-        "text": "PARTIAL. Proved: T-SINGLE for every domain (tsingle_eq: the baseline's FIFO loop equals the level-by-level fold, order included; tsingle_exact/_mem: a binding is reported iff it is derivable by extending the empty binding constraint by constraint with offered values and every constraint evaluates to true; tsingle_sound via satOrFalse_mono; tnaive_ids), T-RUN-SOUND / closure for the automaton side; T-BUILD (propositional equivalence of the compiled automaton with the conjunction of each pattern's constraints, for every event log) is being proved against the guarded model (Proofs/ by agent, see DESIGN). Decided per run for the automata actually built and the hosts generated by: exact replay of every build (model = code, state ids and edge ids included), model traversal on the dumped automaton, and the executable occurrence oracle evaluated on the implementation's own matches. Four-way comparison per record: real ManyMatcher vs real NaiveManyMatcher (the C03 oracle, per pattern id, full match data) vs model traversal vs model baseline; string, matrix, port-graph and table domain with 5 contract-conforming tree strategies. F4 (make_det dropped the fallback state's accepted patterns) was found by this check and repaired; known finding F5 (baseline ignores Pattern::required_bindings) is reported by signature.",
+        "text": "Builder half FULL: T-BUILD (Props/TBuild.lean build_acc, restated as c03_prop) proves for EVERY pattern list, EVERY event log (all hash-iteration orders and all heuristic answers at once) and every truth assignment under which the tree decomposition is faithful (c03_treeOK_char: every assignment for the string/matrix decomposition; table strategies 0-2 likewise; port graphs under the conditioning law, tpg_tree_faithful) that acceptance from the root of the built automaton, in the reading the traversal implements, is exactly 'some pattern with that id has all its constraints true' (7.2k lines; also build_detOK, build_ordersOK, build_acyclic; build_acc_unguarded_counterexample shows why the model carries the make_det guard; c03_guarded_is_real ties the guarded build to the lenient one that is replayed). Baseline half FULL: T-SINGLE (tsingle_eq/_exact/_mem/_sound/_complete, tnaive_ids). Traversal half: T-RUN-SOUND + BFS closure for every automaton (trun_sound, trun_closed); the host-level equality for anchored domains (strings) is being proved (T-RUN-ANCH-STR) — until it lands the host-level statement c03_string_target is PARTIAL. Decided per run for the automata actually built and the hosts generated by: exact replay of every build (model = code, state ids and edge ids included), model traversal on the dumped automaton, and the executable occurrence oracle evaluated on the implementation's own matches. Four-way comparison per record: real ManyMatcher vs real NaiveManyMatcher (the C03 oracle, per pattern id, full match data) vs model traversal vs model baseline; string, matrix, port-graph and table domain (5 tree strategies). Builds on which the make_det guard fires (a constraint child already deterministic: ~1 in 5000 real builds) are outside T-BUILD: they are flagged and a window search (all hosts up to length 6 over the pattern alphabet) looks for a failing host. F4 was found by this check and repaired; known finding F5 (baseline ignores Pattern::required_bindings) is reported by signature.",
         "note": NOTE_COMMON + "Hash-iteration order is an explicit, logged and replayed choice sequence; FxHasher in visit() is modelled as injective; usize as Nat.",
         "technique": TECH,
     },
     "C04": {
         "category": "proof",
         "design_ref": 'DESIGN.md §5 C04',
-        "text": "PARTIAL towards c04_string_target (independence of the event log = heuristic answers and hash-order choices). It is a corollary of T-BUILD + the anchored traversal theorem, both not yet closed; proved so far: the traversal side (trun_expanded, trun_closed) for any automaton. Decided per run for the automata actually built and the hosts generated by: exact replay of every build (model = code, state ids and edge ids included), model traversal on the dumped automaton, and the executable occurrence oracle evaluated on the implementation's own matches. The check enumerates ALL 2^m answer strings when a build asks m <= 5 (quick) / 9 (thorough) questions, replays each build exactly and compares the match multisets (strings, matrices) resp. sets (table, port graphs) across all variants in Lean (HSUM records).",
+        "text": "Propositional level FULL: c04_prop — two builds of the same patterns under ANY two event logs (heuristic answer sequences and hash-order choices) accept exactly the same pattern ids under every truth assignment (corollary of T-BUILD, whose right-hand side does not mention the log); DetHeuristic::make_det itself is three lines of model. Host level: a corollary for strings once the anchored traversal theorem lands (c04_string_target, PARTIAL until then); multiplicity needs C07. Decided per run for the automata actually built and the hosts generated by: exact replay of every build (model = code, state ids and edge ids included), model traversal on the dumped automaton, and the executable occurrence oracle evaluated on the implementation's own matches. The check enumerates ALL 2^m answer strings when a build asks m <= 5 (quick) / 9 (thorough) questions, replays each build exactly and compares the match multisets (strings, matrices) resp. sets (table, port graphs) across all variants in Lean (HSUM records).",
         "note": NOTE_COMMON + "Hash-iteration order is an explicit, logged and replayed choice sequence; FxHasher in visit() is modelled as injective; usize as Nat.",
         "technique": TECH,
     },
     "C05": {
         "category": "proof",
         "design_ref": 'DESIGN.md §5 C05',
-        "text": "Generic part FULL: tsingle_eq / tsingle_exact / tsingle_mem / tsingle_sound / tsingle_complete characterise SinglePatternMatcher::get_all_bindings for every domain as 'exactly the bindings derivable by extending with offered values such that every constraint holds, retained to the requested keys, all requested keys bound'; tnaive_ids: NaiveManyMatcher labels by input position, duplicates included. Domain part: tdom_str_sat_iff / tdom_mat_sat_iff turn 'all constraints hold under the canonical binding' into the occurrence semantics. The composition c05_string / c05_matrix (exact result list = occurrences, one each) is being proved (agent); until it lands this is PARTIAL for the composed statement. Decided per run for the automata actually built and the hosts generated by: exact replay of every build (model = code, state ids and edge ids included), model traversal on the dumped automaton, and the executable occurrence oracle evaluated on the implementation's own matches. Port graphs: sound (embedding check) and complete against brute-force embedding search outside the known-finding signature pg:multiRoot. Weighted port graphs are not exercised.",
+        "text": "Strings and matrices FULL (Props/C05.lean, 1.7k lines of proof): c05_string / c05_matrix — for fuel above an explicit bound, SinglePatternMatcher::find_matches returns EXACTLY the list [bound a |p| for a in occurrences of p in h] in increasing anchor order (the empty string pattern: one unbound map), one result per occurrence; c05_*_any_fuel (whenever the model returns, it returns that list), c05_*_match_exists (match_exists iff some occurrence), c05_*_keys (every constraint key is bound to an existing host position), c05_*_nodup; generic T-SINGLE for every domain (tsingle_*); c05_naive_ids/_total (NaiveManyMatcher numbers patterns by input position, duplicates included). Port graphs PARTIAL: single-constraint semantics (tpg_connected_link, tpg_notequal), soundness/completeness w.r.t. embeddings decided by the oracle (brute-force embedding search in Lean), misses inside the signature pg:multiRoot are known finding F3b; weighted port graphs are not exercised. Decided per run for the automata actually built and the hosts generated by: exact replay of every build (model = code, state ids and edge ids included), model traversal on the dumped automaton, and the executable occurrence oracle evaluated on the implementation's own matches. ",
         "note": NOTE_COMMON + "Hash-iteration order is an explicit, logged and replayed choice sequence; FxHasher in visit() is modelled as injective; usize as Nat.",
         "technique": TECH,
     },
     "C06": {
         "category": "proof",
         "design_ref": 'DESIGN.md §5 C06',
-        "text": "Construction-level clauses FULL (Props/C06.lean): c06_ids_are_positions (the builder is handed exactly (position, constraints, extra keys) of the convertible patterns in input order — no renumbering, duplicates keep their positions), c06_fail_iff (Fail mode returns the conversion error iff some pattern is not convertible), c06_skip_total, c06_get_pattern (get_pattern/n_patterns reflect exactly the compiled ids). The semantic clause (results of a pattern do not depend on the other patterns) is a corollary of T-BUILD's right-hand side being pointwise in the id — PARTIAL until T-BUILD and the anchored traversal theorem close. Decided per run for the automata actually built and the hosts generated by: exact replay of every build (model = code, state ids and edge ids included), model traversal on the dumped automaton, and the executable occurrence oracle evaluated on the implementation's own matches. Variants whole / alone / permuted / sub-multiset with duplicates are compared per original pattern in Lean (SSUM records); port-graph sets contain root-less (non-convertible) patterns under both fallback modes.",
+        "text": "Construction-level clauses FULL (Props/C06.lean): c06_ids_are_positions, c06_fail_iff, c06_skip_total, c06_get_pattern. Semantic clause FULL at the propositional level: c06_prop — whether pattern id i is accepted from the root depends only on the entries with id i, whatever else is compiled with it, in whatever order, under whatever event log; c06_skipped_not_accepted — a skipped id is accepted nowhere (corollaries of T-BUILD). Host level for strings follows once the anchored traversal theorem lands (PARTIAL until then). Decided per run for the automata actually built and the hosts generated by: exact replay of every build (model = code, state ids and edge ids included), model traversal on the dumped automaton, and the executable occurrence oracle evaluated on the implementation's own matches. Variants whole / alone / permuted / sub-multiset with duplicates are compared per original pattern in Lean (SSUM records); port-graph sets contain root-less (non-convertible) patterns under both fallback modes.",
         "note": NOTE_COMMON + "Hash-iteration order is an explicit, logged and replayed choice sequence; FxHasher in visit() is modelled as injective; usize as Nat.",
         "technique": TECH,
     },
@@ -108,6 +108,13 @@ CLAIMS = {
         "design_ref": 'DESIGN.md §5 C11',
         "text": "Specification half FULL for strings and matrices: c11_occursStr_self, c11_occursStr_extend (prefix and suffix of any length), c11_occursMat_self, c11_occursMat_extend_rows / _above / _right. The property itself is C01 o extend o C02, so it inherits their PARTIAL status; port-graph spec lemmas (embedsPG_self / _extend) are being proved (agent). Decided per run for the automata actually built and the hosts generated by: exact replay of every build (model = code, state ids and edge ids included), model traversal on the dumped automaton, and the executable occurrence oracle evaluated on the implementation's own matches. Metamorphic EXT records: chains of 1-5 extension steps, both matchers re-run on every host, every earlier (pattern, anchor) must be reported at the transported anchor later.",
         "note": NOTE_COMMON + "Hash-iteration order is an explicit, logged and replayed choice sequence; FxHasher in visit() is modelled as injective; usize as Nat.",
+        "technique": TECH,
+    },
+    "C09": {
+        "category": "proof",
+        "design_ref": "DESIGN.md §5 C09, §4 S2/S3",
+        "text": "Checker FULL: c09_wfCheck_sound / _complete / _iff (Props/C09.lean, 46 theorems) — the executable wfCheck is equivalent to the Prop-level Automaton.WF (rank function, Path-reachability from the root, at most one fallback, no self transition, the two orders list exactly the outgoing constraint / fallback transitions once, every compiled id accepted, prerequisite-ordered scopes and key lists, scope covers outgoing constraint keys), under graph well-formedness, which T-BUILD's invariant provides for every built automaton. For EVERY automaton the builder can produce (all pattern sets, logs, heuristics): clauses (a) acyclic (build_acyclic), (d)/(e) via build_ordersOK + Inv (no self loops, orders = live out-edges), (f) via build_accND, (h) c09_populateScopes_scopeCovers, and the recorded key lists of add_pattern are prerequisite-ordered (c09_addPattern_keys_ordered); their assembly into WF clauses is being finished (Props/C09Built.lean, agent). PARTIAL/targets: clauses (b) reachability, (c) at most one fallback and (g) scope order for all pattern sets — these are exactly where DESIGN's suspicions S2/S3 sit — are decided per build: wfCheck runs on the DUMP of every automaton any check builds, on all states.",
+        "note": NOTE_COMMON + "The dump is tied to the model by exact replay; n_states() and dot_string() arrow count are cross-checked.",
         "technique": TECH,
     },
     "C17": {
